@@ -1617,7 +1617,8 @@ def run(ctx):
              "save / load functions; a round-trip case is non-trivial when at least one level of the object carries "
              "a non-default unit system or the route is a multi-file layout; alias and default cases are non-trivial "
              "by construction (base dictionaries use non-default, pairwise different unit systems at every level and "
-             "a foreign parent system); cases are distinct tuples of the product")
+             "a foreign parent system); file-name cases save 2 or 3 different objects next to each other and are "
+             "non-trivial by construction; cases are distinct tuples of the product")
     ctx.assume("exact SI scales of mc/ref/si.py; physical equality as specified in DESIGN appendix A.7 "
                "(mc/ref/physical.py); Python's float <-> text round trip is exact; numpy .npy files and the json "
                "module are trusted")
